@@ -64,8 +64,10 @@ def ghost_check(ctx, cases):
             continue
         i = c.get('impl_dec')
         if not i or i[0] != 'ok':
-            ctx.violation({'kind': 'C03-decode-of-encode-fails', 'case': case, 'impl': repr(i)[:200]},
-                          'the implementation cannot decode what it encoded: ids=%s' % c['ids'])
+            rec = {'kind': 'C03-decode-of-encode-fails', 'case': case, 'impl': repr(i)[:200]}
+            if i and i[0] == 'err' and i[1] == 9 and P.wide_field_cause(c):
+                rec['cause'] = 'field-wider-than-64-bits'          # D26
+            ctx.violation(rec, 'the implementation cannot decode what it encoded: ids=%s' % c['ids'])
             continue
         ghost = B.parse_model_subsets(ghost_s)
         bad = None
